@@ -94,7 +94,7 @@ ROLES = [
      "descriptor bookkeeping mismatch"),
     # ---- molecule
     ("mol-text-after-mixture", "molecule.Molecule.__init__", "implies",
-     "T.find('.|') >= 0 and len(E) > 0", {"T": None, "E": lambda t: AFTER_FIRST_BAR.match(src(t)) is not None}, "text after the mixture specifier"),
+     ("T.find('.|') >= 0 and len(E) > 0", "T.find('.|') >= 0 and E != ''", "'.|' in T and len(E) > 0", "'.|' in T and E != ''"), {"T": None, "E": lambda t: AFTER_FIRST_BAR.match(src(t)) is not None}, "text after the mixture specifier"),
     ("mol-connector-descriptor", "molecule.Molecule.__init__", "site",
      "A.descriptor != O.descriptor or A.descriptor_id != O.descriptor_id or A.bond_type != O.bond_type",
      {"A": S("bond_descriptors[0]"), "O": name()},
@@ -117,7 +117,8 @@ ROLES = [
      "complete percentages not summing to 100"),
     ("sys-inconsistent-mass", "system._estimate_system_molecular_weight", "site",
      # the pairwise loop over range(len(W) - 1) is empty for fewer than two estimates: the explicit length test is optional
-     ("len(W) > 1 and abs(W[i] - W[i + 1]) > K_eps", "abs(W[i] - W[i + 1]) > K_eps"), {"W": name(), "i": lambda t: "§idx" in src(t) or isinstance(t, ast.Name), "K_eps": eps},
+     ("len(W) > 1 and abs(W[i] - W[i + 1]) > K_eps", "abs(W[i] - W[i + 1]) > K_eps",
+      "len(W) > 1 and abs(W[i - 1] - W[i]) > K_eps", "abs(W[i - 1] - W[i]) > K_eps"), {"W": name(), "i": lambda t: "§idx" in src(t) or isinstance(t, ast.Name), "K_eps": eps},
      "inconsistent system mass estimates"),
     ("sys-unclosed-mixture", "system.System.__init__", "implies", "T.find('.|') >= 0 and F < 0",
      {"T": name(), "F": lambda t: call("find", 2)(t) and "'|'" in src(t)}, "'.|' without closing '|'"),
